@@ -501,7 +501,7 @@ def _strings_of(v):
 intern_pool(STRS + KEYS + TYPS + list(_strings_of(REG_EXTRAS)) + list(_strings_of(FREE_EXTRAS)) +
             ["alg", "enc", "typ", "kid", "JWT", "p2c", "p2s", "epk", "iv", "tag", "kty", "crv", "x", "y", "EC", "P-256",
              "1700000000", "2030-01-01", "admin", "alice", "JWT2", "zip", "DEF", "crit", "apu", "apv", "QWxpY2U", "Qm9i", "Qm9iMg",
-             "8J-YgA", "cty", "jti", "pad", "A192CBC-HS384", "A256CBC-HS512", "A256GCM", "A128CBC-HS256", "dir", "role", "guest"])
+             "8J-YgA", "cty", "jti", "pad", "A192CBC-HS384", "A256CBC-HS512", "A256GCM", "A128CBC-HS256", "dir", "role", "guest", "xcu", "xcn", "custom-value", "cfg", "RSA-OAEP"])
 
 
 def gen_header(rng, base, kids, form):
@@ -677,6 +677,14 @@ def own_loads(payload, dec_cls):
     return "(Ok %s)" % c_pv(v), ("ok", v)
 
 
+CUSTOM_HEADER = ("xcu", "custom-value")
+
+
+def custom_header_registry():
+    from joserfc.registry import HeaderParameter
+    return {"xcu": HeaderParameter("Caller-registered parameter", "str"), "xcn": HeaderParameter("Caller-registered int", "int")}
+
+
 class Options:
     """One choice of the optional arguments of jwt.encode / jwt.decode.
     mode: 'reg' registry= only; 'algs' algorithms= (JWE: plus a plain JWERegistry() to select
@@ -692,6 +700,8 @@ class Options:
                 self.registry = W.JWSRegistry(algorithms=algs, strict_check_header=strict)
             elif mode == "reg-nondefault":
                 self.registry = W.JWSRegistry(algorithms=algs, strict_check_header=False)
+            elif mode == "reg-custom":        # the caller registers an own header parameter (strict checking stays on)
+                self.registry = W.JWSRegistry(header_registry=custom_header_registry(), algorithms=algs)
             if mode in ("algs", "both"):
                 self.algorithms = list(algs)
         else:
@@ -699,6 +709,8 @@ class Options:
                 self.registry = W.JWERegistry(algorithms=algs, strict_check_header=strict)
             elif mode == "reg-nondefault":
                 self.registry = W.JWERegistry(algorithms=algs, strict_check_header=False, verify_all_recipients=False)
+            elif mode == "reg-custom":
+                self.registry = W.JWERegistry(header_registry=custom_header_registry(), algorithms=algs)
             elif mode == "both":
                 self.registry = W.JWERegistry(algorithms=algs, strict_check_header=strict)
             else:
@@ -837,7 +849,7 @@ def run(ctx):
             "datetime_claims": 0, "contract_points_json": 0, "contract_points_transport": 0,
             "per_encoder_cls": {}, "per_decoder_cls": {}, "per_option_mode": {}, "positional_calls": 0,
             "decoder_made_non_object": 0, "foreign_object_claims": 0,
-            "per_decode_key_form": {}, "tamper_fault_classes": {}, "keyset_no_matching_kid": 0, "key_form_pairs": 0, "zip_header": 0,
+            "per_decode_key_form": {}, "tamper_fault_classes": {}, "keyset_no_matching_kid": 0, "key_form_pairs": 0, "zip_header": 0, "key_configurations": 0, "custom_header_registry": 0,
             "jwe_header_members_matrix": 0}
 
     def add(term, m):
@@ -952,10 +964,12 @@ def run(ctx):
         return d, drec, own
 
     # ---------------------------------------------------------------- encode / decode round trips
-    def one_roundtrip(tr_, form, header, strict, claims, token_as_bytes, enc, dec, mode, positional, header_valid=True, dform=None):
+    def one_roundtrip(tr_, form, header, strict, claims, token_as_bytes, enc, dec, mode, positional, header_valid=True, dform=None, enc_key=None, dec_key=None):
         tname, kind, base, fam, added = tr_
         enc_id, enc_cls = enc
         key, kids = W.key_form(fam, form)
+        if enc_key is not None:              # a key configuration of its own (key_ops / use / alg members)
+            key, kids = ((lambda obj: enc_key) if form == "callable" else enc_key), [enc_key.kid]
         obase = {**base, "zip": header["zip"]} if kind == "jwe" and isinstance(header.get("zip"), str) else base
         opts = Options(W, kind, obase, mode, strict, positional)
         if "zip" in header:
@@ -1052,7 +1066,13 @@ def run(ctx):
             signer = next((k for k in ks if k.kid == wire.get("kid")), ks[0])
         else:
             signer = ks[0]
-        if dform is None or dform == form:
+        if dec_key is not None:
+            signer = dec_key
+            dform_ = dform or "key"
+            ks = [dec_key]
+            dkey = {"key": dec_key, "callable": (lambda obj: dec_key), "keyset1": W.KeySet([dec_key]),
+                    "callable-keyset1": (lambda obj: W.KeySet([dec_key]))}[dform_]
+        elif dform is None or dform == form:
             dform_, dkey = form, key
         else:
             dform_, dkey = dform, W.decode_key(fam, dform, signer)
@@ -1207,6 +1227,63 @@ def run(ctx):
                 dist["jwe_header_members_matrix"] += 1
                 one_roundtrip(tr_, ef, h, True, claims_class(j), nm % 4 == 0, ENCODERS[nm % 2], STD_DECODERS[nm % 3],
                               modes[nm % len(modes)], positional=nm % 5 == 0, dform=dforms[nm % len(dforms)] if nm % 3 == 0 else None)
+
+    # ---- key configurations: the matching key restricted to the operation each side needs
+    # (key_ops as the unchanged tree requires them: sign/verify; dir and RSA-OAEP encrypt/decrypt;
+    #  A128KW and A128GCMKW wrapKey/unwrapKey; ECDH-ES and PBES2 deriveKey), "use" and "alg" members
+    from joserfc.jwk import OctKey, RSAKey, ECKey, OKPKey
+    rsa0, ec0, okp0 = W.keys["rsa"][0], W.keys["ec"][0], W.keys["okp"][0]
+
+    def asym(cls, k, private, **m):
+        return cls.import_key({**{a: b for a, b in k.as_dict(private=private).items() if a != "kid"}, "kid": "cfg", **m})
+
+    def octk(fam, **m):
+        return OctKey.import_key(W.keys[fam][0].raw_value, {"kid": "cfg", **m})
+    tmap = {t[0]: t for t in W.transports}
+    rsa_oaep = ("RSA-OAEP+A128GCM", "jwe", {"alg": "RSA-OAEP", "enc": "A128GCM"}, "rsa", ())
+    keycfgs = []
+    for name, fam in (("HS256", "oct32"), ("HS384", "oct48"), ("HS512", "oct64")):
+        keycfgs += [(tmap[name], octk(fam, key_ops=["sign"]), octk(fam, key_ops=["verify"])),
+                    (tmap[name], octk(fam), octk(fam, key_ops=["verify"], use="sig", alg=name)),
+                    (tmap[name], octk(fam, key_ops=["sign", "verify"], alg=name), octk(fam, key_ops=["verify"]))]
+    keycfgs += [
+        (tmap["RS256"], asym(RSAKey, rsa0, True, key_ops=["sign"]), asym(RSAKey, rsa0, False, key_ops=["verify"])),
+        (tmap["RS256"], asym(RSAKey, rsa0, True), asym(RSAKey, rsa0, False, use="sig", alg="RS256")),
+        (tmap["ES256"], asym(ECKey, ec0, True, key_ops=["sign"]), asym(ECKey, ec0, False, key_ops=["verify"], use="sig")),
+        (tmap["ES256"], asym(ECKey, ec0, True, use="sig"), asym(ECKey, ec0, False, alg="ES256")),
+        (tmap["EdDSA"], asym(OKPKey, okp0, True, key_ops=["sign"]), asym(OKPKey, okp0, False, key_ops=["verify"])),
+        (tmap["dir+A128GCM"], octk("oct16", key_ops=["encrypt"]), octk("oct16", key_ops=["decrypt"])),
+        (tmap["dir+A128GCM"], octk("oct16", use="enc"), octk("oct16", use="enc", key_ops=["decrypt"])),
+        (tmap["A128KW+A128CBC-HS256"], octk("oct16", key_ops=["wrapKey"]), octk("oct16", key_ops=["unwrapKey"])),
+        (tmap["A128GCMKW+A128GCM"], octk("oct16", key_ops=["wrapKey"]), octk("oct16", key_ops=["unwrapKey"])),
+        (tmap["ECDH-ES+A128KW"], asym(ECKey, ec0, False, key_ops=["deriveKey"]), asym(ECKey, ec0, True, key_ops=["deriveKey"])),
+        (tmap["ECDH-ES+A128KW"], asym(ECKey, ec0, False, use="enc"), asym(ECKey, ec0, True, use="enc")),
+        (tmap["PBES2-HS256+A128KW"], octk("pw", key_ops=["deriveKey"]), octk("pw", key_ops=["deriveKey"])),
+        (rsa_oaep, asym(RSAKey, rsa0, False, key_ops=["encrypt"]), asym(RSAKey, rsa0, True, key_ops=["decrypt"])),
+        (rsa_oaep, asym(RSAKey, rsa0, False, use="enc"), asym(RSAKey, rsa0, True, use="enc")),
+    ]
+    nk = 0
+    for tr_, ek, dk in keycfgs:
+        for df in ("key", "keyset1", "callable", "callable-keyset1"):
+            nk += 1
+            dist["key_configurations"] += 1
+            modes = modes_for(W, tr_[1], tr_[2], True)
+            one_roundtrip(tr_, "callable" if nk % 3 == 0 else "key", dict(tr_[2]), True, {"sub": "a", "n": nk}, nk % 4 == 0, ENCODERS[0],
+                          STD_DECODERS[nk % 3], modes[nk % len(modes)], positional=nk % 5 == 0, dform=df, enc_key=ek, dec_key=dk)
+
+    # ---- a header parameter registered by the caller (header_registry=...), present in the header: every alg family
+    nc = 0
+    for tr_ in list(W.transports) + [rsa_oaep]:
+        tname, kind, base, fam, added = tr_
+        for v in ({"xcu": "custom-value"}, {"xcu": "é", "xcn": 7, "cty": "JWT"}, {"xcn": 0, "typ": "at+jwt"}):
+            for form in (["key", "keyset", "callable"] if tr_ is not rsa_oaep else ["key"]):
+                nc += 1
+                if ctx.quick and nc % 2 and v is not None and "cty" in v:
+                    continue
+                dist["custom_header_registry"] += 1
+                h = {**base, **v} if nc % 2 else {**v, **base}
+                one_roundtrip(tr_, form, h, True, {"sub": "a", "n": nc}, False, ENCODERS[0], STD_DECODERS[nc % 3], "reg-custom",
+                              positional=nc % 4 == 0)
 
     # a few directed claims sets on one cheap JWS and one cheap JWE transport, with every encoder
     hs = W.transports[0]
